@@ -36,6 +36,10 @@ def parts(tier):
             CH("literals_merged_models", "vflib.props.c02:scen_tight",
                {"kinds": "KINDS_LITM", "samples": 1, "keys": ["a", "b"], "merge": ["default"], "symbolic_leaves": False},
                shards=4, timeout=170, path_timeout=30, mode="CH-E"),
+            # the same string at several positions (fields a, b and inside nested values): a Literal must not pick up strings from elsewhere
+            CH("same_string_at_two_positions", "vflib.props.c02:scen_tight",
+               {"kinds": "KINDS_SAMESTR", "samples": 2, "keys": ["a", "b"], "merge": ["default"], "symbolic_leaves": False},
+               shards=16, timeout=170, path_timeout=30, mode="CH-E"),
         ]
     return [
         CH("pairs", "vflib.props.c02:scen_tight",
